@@ -62,6 +62,27 @@ def native_replay(contract_module, c, clause, inputs):
         os.unlink(path)
 
 
+def native_sampling(contract_module, names, n, seed):
+    req = {'contract_module': contract_module, 'names': names, 'n': n, 'seed': seed}
+    with tempfile.NamedTemporaryFile('w', suffix='.json', delete=False, dir=tempfile.gettempdir()) as f:
+        json.dump(req, f)
+        path = f.name
+    try:
+        env = dict(os.environ)
+        env['PYTHONPATH'] = f"{VERIF}:{REPO}"
+        p = subprocess.run([VENV_PY, '-m', 'pyvc.sampling', path], capture_output=True, text=True, timeout=600, env=env,
+                           cwd=VERIF)
+        line = p.stdout.strip().splitlines()[-1] if p.stdout.strip() else ''
+        try:
+            return json.loads(line)
+        except Exception:
+            return {'error': (p.stdout + p.stderr)[-1500:]}
+    except subprocess.TimeoutExpired:
+        return {'error': 'native sampling timed out'}
+    finally:
+        os.unlink(path)
+
+
 def patch_world_function(world, module, qualname, old, new):
     """in-memory source mutation of one function (canaries); returns undo() or None"""
     sm = world.sources[module]
@@ -343,6 +364,41 @@ def run_proof_tier(prop, contract_modules, source_modules, classify=None):
     for b in bad_cc:
         errors.append("engine/CPython disagreement: " + b)
 
+    # native sampling of the contracts themselves: the real function is called on random concrete inputs and every
+    # clause is evaluated natively.  A failing clause of a DISCHARGED obligation is a disagreement between the
+    # verifier and CPython (checker error); a failing clause of an obligation that is not discharged is a failing
+    # input for it (a confirmed violation with a replayable input).
+    sampling_log = []
+    for cm in cms:
+        cfg = getattr(cm, 'NATIVE_SAMPLING', None)
+        if not cfg:
+            continue
+        names = [c.name for c in cm.CONTRACTS if cfg['select'] in c.name and not getattr(c, 'external', None)]
+        res = native_sampling(cm.__name__, names, cfg.get('n', 150), 1)
+        if 'error' in res:
+            errors.append(f"native sampling of {cm.__name__} failed: {str(res['error'])[-300:]}")
+            continue
+        for cname, r in sorted(res.items()):
+            sampling_log.append({'contract': cname, 'tried': r['tried'], 'pre_ok': r['pre_ok'], 'failing_inputs': len(r['failed']),
+                                 'skipped': r['skipped'], 'evaluation_errors': r['errors']})
+            c = by_q[cname]
+            for f in r['failed']:
+                for clause in f['clauses']:
+                    oid = f"{prop}.{cname}.{clause}"
+                    o = obs.get(oid)
+                    if o is not None and o['status'] == 'discharged':
+                        errors.append(f"engine/CPython disagreement: {oid} is discharged but fails natively on {_short(f['inputs'])}")
+                    elif not any(v.obligation == oid and v.confirmed for v in violations):
+                        violations[:] = [v for v in violations if v.obligation != oid]      # the unconfirmed report is superseded
+                        key = classify(oid, {'inputs': f['inputs']}) if classify else oid
+                        violations.append(Violation(prop, oid, key,
+                            f"{c.module}.{c.qualname}({_short(f['inputs'])}) -> {f['outcome']}; clause '{clause}' fails on the "
+                            f"real code (input found by native sampling of the contract)",
+                            {'kind': 'proof-counterexample', 'contract_module': cm.__name__, 'module': c.module,
+                             'qualname': c.qualname, 'name': c.name, 'clause': clause, 'inputs': f['inputs'],
+                             'found_by': 'native sampling'}, True))
+    timing['native_sampling_s'] = round(time.time() - t0 - sum(timing.values()), 2)
+
     functions = []
     for c in contracts:
         if getattr(c, 'external', None):
@@ -367,6 +423,7 @@ def run_proof_tier(prop, contract_modules, source_modules, classify=None):
             assumed.append("library contract (assumed): " + a)
     return {'external_contracts_used': external_used, 'static': static_results, 'violations': violations, 'undecided': undecided, 'errors': errors, 'diagnostics': diagnostics,
             'obligations': obs, 'functions': functions, 'assumed': assumed, 'canaries': canary_log,
+            'native_sampling': sampling_log,
             'crosscheck': {'samples': n_cc, 'disagreements': len(bad_cc)}, 'dropped': list(world.dropped),
             'time_s': round(time.time() - t0, 2), 'timing': timing, 'world': world, 'contracts': contracts, 'cms': cms}
 
